@@ -927,6 +927,16 @@ func checkCase(c Case, o *vt.Obs) error {
 			return where("the compiler itself panics on this program (valid for the Go toolchain): %s", prs[i].crash)
 		}
 		if prs[i].rejected != "" {
+			expected := false
+			for _, f := range pr.Feat {
+				if f == "anon-exported-param" {
+					expected = true
+				}
+			}
+			if !expected {
+				// the generator stays inside the documented dialect: a program the Go toolchain builds must compile
+				return where("the compiler rejects a program of the documented dialect: %s", prs[i].rejected)
+			}
 			o.Label("rejected:" + prs[i].rejected)
 			o.Label("prog-rejected")
 			continue
